@@ -276,3 +276,41 @@ func KeyBad(m Method) string  { return m.Name + ":" + itoa(m.Line) }
 func KeyGood(m Method) string { return m.Name + ":" + itoa(m.Line) + ":" + itoa(m.Col) }
 
 func itoa(i int) string { return strconv.Itoa(i) }
+
+// ---- E7: nil-able global pointer, cutset trimming, decoding into a global, returning a global's address
+
+var current *Node
+
+func EnterNode()       { current = &Node{} }
+func ExitNodeBad() int { n := len(current.Funcs); current = nil; return n }
+func ExitNodeGood() int {
+	if current != nil {
+		n := len(current.Funcs)
+		current = nil
+		return n
+	}
+	return 0
+}
+
+func LocationBad(path, dir string) string  { return strings.TrimLeft(path, dir) }
+func LocationGood(path, dir string) string { return strings.TrimPrefix(path, dir) }
+func MarkerGood(t string) string           { return strings.TrimLeft(t, ":") }
+
+var model []Type
+
+func LoadBad(data []byte) int { _ = json.Unmarshal(data, &model); return len(model) }
+func LoadGood(data []byte) int {
+	model = nil
+	_ = json.Unmarshal(data, &model)
+	return len(model)
+}
+
+var lastRows []Row
+
+func RowsBad(names []string) *[]Row {
+	lastRows = nil
+	for i, n := range names {
+		lastRows = append(lastRows, Row{n, i})
+	}
+	return &lastRows
+}
